@@ -15,7 +15,7 @@ RULE = (
     "cases = (shape, class per node from {Node, AnyNode, user NodeMixin classes (one of them with inherited __slots__ besides its __dict__), classes with own __eq__/__bool__/__len__, SymlinkNode and user SymlinkNodeMixin classes keeping target in the dictionary, a slot or behind a property} or {slotted, dict-carrying LightNodeMixin classes}, "
     "symlink targets (an earlier node of the same tree, a node of a second tree, or another link), JSON-like attribute values, entry node, "
     "method in {pickle protocol 0..5, copy.deepcopy}). Enumerated: every shape <= 5 (quick) / <= 6 (thorough) nodes x every entry node x every "
-    "method x 8 class schemes; generated: trees <= 30 nodes with random class mixes, targets and attributes. Non-trivial = >= 4 nodes and "
+    "method x 10 class schemes; generated: trees <= 30 nodes with random class mixes, targets and attributes. Non-trivial = >= 4 nodes and "
     "(entry is not the root or the tree contains a symlink). Enumerated distinct by construction; generated hashed."
     ' Also: trees rearranged by moves before copying; a LightNodeMixin class with a plain-string __slots__; an original node moved below the copy of its former parent.'
 )
@@ -50,6 +50,10 @@ def make(clsname, idx, attrs, target):
         return node
     if clsname == "SymlinkNode":
         return SymlinkNode(target)
+    if clsname == "FixedLink":
+        return nodes.FixedLink()
+    if clsname == "StatefulNM":
+        return nodes.StatefulNM("st%d" % idx)
     if clsname in LINKS:
         return nodes.make_link(clsname, target)
     if clsname == "SlotDictNM":
@@ -83,7 +87,7 @@ def build_tree(spec, other_nodes):
 def state_of(node):
     """Own state of a node (not forwarded through a symlink)."""
     if isinstance(node, SymlinkNodeMixin):
-        return []
+        return [(k, v) for k, v in vars(node).items() if not (k in BOOK or k.startswith("_NodeMixin__") or k == "target" or k == "_ref")]
     if isinstance(node, nodes.SlotLM):
         return [("name", node.name), ("tag", getattr(node, "tag", None))]
     if isinstance(node, nodes.StrSlotLM):
@@ -252,6 +256,8 @@ SCHEMES = [
     ("nm-special", ["FalsyNode", "EqNode", "LenNode", "FalsyNode"], NM_METHODS),
     ("nm-slotdict", ["SlotDictNM", "Node", "SlotDictNM"], NM_METHODS[2:]),
     ("nm-userlinks", ["Node", "PropLink", "SlotLink", "PlainLink"], NM_METHODS[2:]),
+    ("nm-links-lm", ["Node", "SymlinkNode", "AnyNode", "SymlinkNode"], NM_METHODS[2:]),
+    ("nm-fixedlink", ["StatefulNM", "FixedLink", "Node", "FixedLink"], NM_METHODS),
     ("lm-slots", ["SlotLM"], LM_METHODS),
     ("lm-mix", ["DictLM", "SlotLM", "StrSlotLM", "_UnderLM"], LM_METHODS),
 ]
@@ -270,6 +276,10 @@ def _enum_cases(max_nodes, index, count):
             targets = [["other" if (i + k) % 3 == 0 else "same", i // 2] for i in range(size)]
             spec = {"shape": forest.to_list(shape), "classes": cls, "targets": targets, "attrs": [SAMPLE_ATTRS[(i + k) % 3] for i in range(size)]}
             other = {"shape": [[], [[]]], "classes": ["Node", "AnyNode", "SymlinkNode", "Node"], "targets": [None, None, ["same", 0], None]} if scheme in ("nm-links", "nm-userlinks") else None
+            if scheme == "nm-links-lm":
+                # links whose targets are LightNodeMixin nodes (necessarily of another tree)
+                other = {"shape": [[], [[]]], "classes": ["SlotLM", "DictLM", "SlotLM", "StrSlotLM"], "targets": [None] * 4}
+                spec = dict(spec, targets=[["other", i] for i in range(size)])
             for entry in range(size):
                 for method in methods:
                     case = {"tree": spec, "entry": entry, "method": method}
@@ -332,4 +342,4 @@ def run_task(task, acc):
 
 
 def evidence_extra(total, tier):
-    return {"exhaustive_subdomain": "every shape <= %d nodes x 8 class schemes x every entry node x every applicable pickle protocol and deepcopy" % (5 if tier == "quick" else 6)}
+    return {"exhaustive_subdomain": "every shape <= %d nodes x 10 class schemes x every entry node x every applicable pickle protocol and deepcopy" % (5 if tier == "quick" else 6)}
